@@ -206,9 +206,22 @@ def run_app_fresh(cfg, hashseed, timeout=600):
             pass
 
 
+def _clean_outdirs():
+    """remove the scratch output directories of processes that are gone"""
+    import shutil
+    base = os.path.join(os.environ.get('VERIF_CACHE', '/root/.cache/pysph_verif'), 'omp_out')
+    try:
+        for n in os.listdir(base):
+            if n.isdigit() and not os.path.exists('/proc/%s' % n):
+                shutil.rmtree(os.path.join(base, n), ignore_errors=True)
+    except OSError:
+        pass
+
+
 def prepare(prop, tier):
     from vsim import build
     build.activate()
+    _clean_outdirs()
     import pysph.solver.application  # noqa
     import pysph.base.nnps  # noqa
     # compile the generated programs (problem x build kind) once, in parallel children
